@@ -81,8 +81,16 @@ def stepAttr (st : St) (a : String) : St :=
   | .err e => .err e
 
 /-! view trees over symbolic values -/
+/-- a view function is opaque; its value shows the attributes (run-time parameters of the op) it was applied with -/
 def viewF (name : String) (arity : Nat) : VFun String PV :=
-  ⟨arity, fun _ xs => name ++ "(" ++ ",".intercalate xs ++ ")"⟩
+  ⟨arity, fun ats xs => name ++ (if ats.isEmpty then "" else "[" ++ ";".intercalate ats ++ "]") ++ "(" ++ ",".intercalate xs ++ ")"⟩
+
+/-- `name[p;q]` → (`name`, [`p`, `q`]): the run-time parameters of a parametrised op are attributes of its view -/
+def splitParams (n : String) : String × List String :=
+  let cs := n.toList
+  let base := cs.takeWhile (· != '[')
+  let rest := ((cs.dropWhile (· != '[')).drop 1).takeWhile (· != ']')
+  (String.ofList base, if rest.isEmpty then [] else (String.ofList rest).splitOn ";")
 
 /-- view functions whose result is a NUMBER (a reduction over all axes, keepdims false): `View.snode` -/
 def numberValued (n : String) : Bool := n == "reduce_add_all" || n == "reduce_max_all"
@@ -96,7 +104,8 @@ partial def toView : Term → Option (View String PV)
       else n.toNat?.map .leaf
   | .mk n as => do
       let args ← toArgs as
-      pure (if numberValued n then .snode (viewF n as.length) [] args else .node (viewF n as.length) [] args)
+      let (base, ps) := splitParams n
+      pure (if numberValued base then .snode (viewF base as.length) ps args else .node (viewF base as.length) ps args)
 partial def toArgs : List Term → Option (Args String PV)
   | [] => some .nil
   | t :: ts => do pure (.cons (← toView t) (← toArgs ts))
